@@ -24,6 +24,7 @@ import (
 //   - n is the length of something whose size is fixed by its type (an array) and not above K;
 //   - n is the byte length of an integer the path has range-checked with
 //     crypto.ValidateSignatureValues (R and S below the curve order: at most 32 bytes).
+//
 // What is not decided: other index arithmetic (`len(x)−1` of a list known to be non-empty, an
 // index chosen by a decoder) — there is no uniform structural guard for those.
 func checkLenDifferences(c *core.Ctx, rule string, fns []*ssa.Function) {
